@@ -1,7 +1,7 @@
 (** Extraction of the executable models and checkers to OCaml.
     Only ExtrOcamlBasic and ExtrOcamlString are used; numbers stay Coq datatypes. *)
 From Coq Require Import Extraction ExtrOcamlBasic ExtrOcamlString.
-From Parol Require Import Grammar.Cfg Grammar.Member Runtime.Levenshtein Runtime.LevFaithful Runtime.DfaEval Transform.LrAugment Analysis.WellFormed Analysis.FirstFollow Analysis.FFCheck Runtime.LRParser Tables.LRValidate.
+From Parol Require Import Grammar.Cfg Grammar.Member Runtime.Levenshtein Runtime.LevFaithful Runtime.DfaEval Transform.LrAugment Analysis.WellFormed Analysis.FirstFollow Analysis.FFCheck Runtime.LRParser Tables.LRValidate Scanner.Regex Scanner.RegexEquiv Scanner.LongestMatch Scanner.CommentSpec Scanner.CommentCheck Transform.LeftFactor Analysis.KTupleModel Analysis.KTuple.
 Extraction Language OCaml.
 Set Extraction Optimize.
 Separate Extraction Levenshtein.lev_check Levenshtein.dist LevFaithful.lev
@@ -13,4 +13,12 @@ Separate Extraction Levenshtein.lev_check Levenshtein.dist LevFaithful.lev
   WellFormed.nullable_nts WellFormed.unproductive_nts WellFormed.unreachable_nts WellFormed.left_recursive_nts
   FFCheck.first_check FFCheck.first_prods_check FFCheck.follow_check FFCheck.decide_check
   FirstFollow.first_ref FirstFollow.follow_ref FirstFollow.decide_ref FirstFollow.lookup FirstFollow.first_prods
-  LRParser.lr_run LRValidate.lr_validate LRValidate.infer_annotation LRValidate.lr_safe_check.
+  LRParser.lr_run LRValidate.lr_validate LRValidate.infer_annotation LRValidate.lr_safe_check
+  Regex.matchb Regex.rrep Regex.rrep_from Regex.rplus Regex.ropt Regex.mkCat Regex.mkAlt
+  RegexEquiv.equiv_check_cp RegexEquiv.total_on_chars_list_cex RegexEquiv.total_on_chars_cex
+  LongestMatch.tokenize_all LongestMatch.tokenize LongestMatch.modes_ok LongestMatch.best_match
+  CommentCheck.block_check_sv CommentCheck.line_check_sv CommentSpec.dfa_accepts CommentSpec.block_spec CommentSpec.line_spec
+  LeftFactor.prefix_free_check LeftFactor.fresh_check LeftFactor.lf_check
+  KTupleModel.new KTupleModel.eps KTupleModel.end_ KTupleModel.of_ KTupleModel.push KTupleModel.extend KTupleModel.k_concat
+  KTupleModel.clear KTupleModel.get KTupleModel.len KTupleModel.k_len KTupleModel.is_eps KTupleModel.is_k_complete
+  KTupleModel.is_empty KTupleModel.iter KTupleModel.cmp KTupleModel.eqb KTupleModel.denote KTupleModel.wfb KTupleModel.term_eqb.
